@@ -161,8 +161,9 @@ def build(sp):
         extra = tuple([3] + [0] * (len(names) - 1))
         if extra not in used:
             terms.append((extra, numpy.zeros(shape, dtype)))
-    if variant == "unsorted":
-        terms = terms[::-1]
+    # storage order: the library itself always produces exponent rows in numpy.unique (lexicographic)
+    # order, so that is the canonical representation of inputs; "unsorted" is the reverse of it
+    terms.sort(key=lambda t: t[0], reverse=(variant == "unsorted"))
     if variant == "unusedname":
         k = 1 + max(name_index(n) for n in names)
         names = names + (f"q{k}",)
